@@ -244,6 +244,19 @@ class Flattener:
             ast.fix_missing_locations(second)
             rep = self.expand_stmt(first, ctx_fi, caller_names | {tmp}, stack, depth)
             return (rep if rep is not None else [first]) + [second]
+        outer = s.value if isinstance(s, (ast.Expr, ast.Assign, ast.Return)) and isinstance(getattr(s, "value", None), ast.Call) else None
+        if outer is not None and self.inlinable_target(outer, ctx_fi, stack) is None:
+            # f(.., helper(..), ..)  ==>  arg = helper(..); f(.., arg, ..)   (only when everything evaluated before it is simple)
+            recv_simple = isinstance(outer.func, ast.Name) or (isinstance(outer.func, ast.Attribute) and _simple(outer.func.value))
+            for i, a in enumerate(outer.args):
+                if isinstance(a, ast.Call) and recv_simple and all(_simple(p) for p in outer.args[:i]) and self.inlinable_target(a, ctx_fi, stack) is not None:
+                    tmp = f"arg_h{next(_counter)}"
+                    first = ast.copy_location(ast.Assign(targets=[ast.Name(id=tmp, ctx=ast.Store())], value=a), s)
+                    outer.args[i] = ast.copy_location(ast.Name(id=tmp, ctx=ast.Load()), a)
+                    ast.fix_missing_locations(first)
+                    rep = self.expand_stmt(first, ctx_fi, caller_names | {tmp}, stack, depth)
+                    rest = self.expand_stmt(s, ctx_fi, caller_names | {tmp}, stack, depth)
+                    return (rep if rep is not None else [first]) + (rest if rest is not None else [s])
         if isinstance(s, ast.Expr) and isinstance(s.value, ast.Call):
             call, mode = s.value, "expr"
         elif isinstance(s, ast.Assign) and len(s.targets) == 1 and isinstance(s.targets[0], (ast.Name, ast.Attribute, ast.Tuple)) and isinstance(s.value, ast.Call):
@@ -338,6 +351,7 @@ class Flattener:
                 out.append(s)
             else:
                 out.extend(rep)
+                caller_names |= _names_stored(rep)  # later helpers must not reuse these names
         return out
 
     def flatten(self, fi: FuncInfo) -> ast.FunctionDef | None:
